@@ -40,15 +40,17 @@ def _collect(exprs):
 _same_cache = {}
 
 
-def _same_term(a, b):
+def _same_term(a, b, wildcard=False):
     if a.eq(b):
         return True
     key = (a.get_id(), b.get_id())
     if key in _same_cache:
         return _same_cache[key][2]
     fa, fb = fingerprint(a), fingerprint(b)
-    if fa is None or fb is None or fa != fb:
+    if fa is not None and fb is not None and fa != fb:
         r = False
+    elif (fa is None or fb is None) and not wildcard:
+        return False
     else:
         from .ratform import is_identically_zero
         r = is_identically_zero(a - b, _SQRT_REL)
@@ -95,8 +97,11 @@ class Abstraction:
             # arguments with the inner applications already replaced by their (merged) atoms
             aargs = [z3.substitute(a.arg(k), *self.sub) if self.sub else a.arg(k) for k in range(a.num_args())]
             atom = None
+            # arguments without a fingerprint (sqrt of a non-residue at the evaluation point) are compared
+            # by normal form anyway for the built-in functions, where there are few atoms
+            wild = name in ("log", "sqrt", "abs", "exp", "erf", "erfcx") and len(reps.get(name, [])) <= 12
             for (r, rargs, v) in (reps.get(name, []) if merge else ()):
-                if len(rargs) == len(aargs) and all(_same_term(x, y) for x, y in zip(rargs, aargs)):
+                if len(rargs) == len(aargs) and all(_same_term(x, y, wild) for x, y in zip(rargs, aargs)):
                     atom = v
                     break
             if not merge:
